@@ -1249,6 +1249,8 @@ def correspond_tolerant(chk: C.Check, tag: str, items: list[dict[str, Any]], wha
     """Like C.correspond, but a case on which the model answers [unmodelled]
     (OutOfFuel: behaviour this model does not transcribe) is counted as
     'no prediction' instead of a disagreement."""
+    import os
+    tag = f"{tag}_{os.getpid()}"       # two concurrent runs of this check must not share a case directory
     rc = C.run_cases(tag, IMPORTS, defs, [it["case"] for it in items],
                      shard=min(120, max(40, -(-len(items) // C.JOBS))))
     for e in rc["errors"]:
